@@ -6,6 +6,7 @@ import (
 	"go/constant"
 	"go/token"
 	"go/types"
+	"regexp"
 	"sort"
 	"strings"
 
@@ -687,6 +688,42 @@ func c01CountersAs(c *core.Ctx, pkg *packages.Package, R string) {
 	}
 	sort.Strings(bad)
 	c.Check(len(bases) >= 3 && len(bad) == 0, R, "func=findInstancesForKey:counters", fn.Pos(), fmt.Sprintf("%d integer counter slices, each on storage of its own: %v", len(bases), bad), len(bases))
+	// the counters are indexed by the position of a zone in THIS ring's zone list: the index is the key of a range over
+	// recv.ringZones, or a variable whose definitions are constants and slices.Index(recv.ringZones, <entry>.Zone).
+	// (An index precomputed for another ring — the parent whose token→owner map a subring shares — addresses another
+	// zone, or lies outside the list, once the subring has lost a zone.)
+	var badIdx []string
+	nIdx := 0
+	zoneIdxRe := regexp.MustCompile(`^slices\.Index\(recv\.ringZones, .*\.Zone\)$`)
+	fn.InspectShallow(func(n ast.Node) bool {
+		ie, ok := n.(*ast.IndexExpr)
+		if !ok {
+			return true
+		}
+		if o := fn.ObjOf(ie.X); o == nil || bases[o] == nil {
+			return true
+		}
+		nIdx++
+		io := fn.ObjOf(ie.Index)
+		if io == nil {
+			if tv, ok := fn.Info().Types[ie.Index]; ok && tv.Value != nil {
+				return true
+			}
+			badIdx = append(badIdx, types.ExprString(ie))
+			return true
+		}
+		for _, d := range fn.DefSites(io) {
+			switch {
+			case d.Canon == "keyof(recv.ringZones)":
+			case d.Expr != nil && fn.Info().Types[d.Expr].Value != nil:
+			case zoneIdxRe.MatchString(d.Canon):
+			default:
+				badIdx = append(badIdx, fmt.Sprintf("%s with %s = %s", types.ExprString(ie), io.Name(), d.Canon))
+			}
+		}
+		return true
+	})
+	c.Check(len(badIdx) == 0 && nIdx >= 3, R, "func=findInstancesForKey:counter-index", fn.Pos(), fmt.Sprintf("%d accesses to the per-zone counters, each indexed by the zone's position in this ring's own zone list (range key of recv.ringZones or slices.Index(recv.ringZones, entry.Zone)); others: %v", nIdx, badIdx), nIdx)
 }
 
 // c01SearchTokenAs: every lookup (instances and partitions) starts at searchToken(tokens, key), "the first
